@@ -822,6 +822,16 @@ func run(cfg *Config, opt core.Options, res *core.Result) *sim {
 	s.afterState(s.nodes[0], s.nodes[0].states[w.genesis.root], "genesis")
 	partitioned := -1
 	partitionUntil := uint64(0)
+	// epoch_gap: one stretch of one or two whole epochs (plus a slot) in which nobody proposes: the next
+	// block's parent is two or more epochs old, checkpoints of consecutive epochs share a root
+	gapFrom, gapTo := uint64(0), uint64(0)
+	if cfg.has("epoch_gap") && uint64(cfg.Slots) > 4*cfg.SPE {
+		gr := core.NewRng(cfg.Seed ^ 0x9a9)
+		e := cfg.StartEpoch + 1 + uint64(gr.Intn(int(uint64(cfg.Slots)/cfg.SPE-2)))
+		gapFrom = e*cfg.SPE - uint64(gr.Intn(2))
+		gapTo = gapFrom + uint64(gr.Range(1, 2))*cfg.SPE + uint64(gr.Intn(int(cfg.SPE)))
+		res.Stat("fault_epoch_gap", 1)
+	}
 	for slot := cfg.baseSlot() + 1; slot <= cfg.baseSlot()+uint64(cfg.Slots) && !s.stop; slot++ {
 		s.step = int(slot)
 		s.curSlot = slot
@@ -841,7 +851,7 @@ func run(cfg *Config, opt core.Options, res *core.Result) *sim {
 			res.Stat("fork_blocks", 1)
 		}
 		var blk *blockRec
-		if w.rng.Intn(100) >= cfg.SkipPct {
+		if w.rng.Intn(100) >= cfg.SkipPct && !(slot >= gapFrom && slot < gapTo) {
 			var err error
 			if p := guard(func() { blk, err = w.produce(parent, slot) }); p != nil {
 				s.viol("C01", "panic/honest-block/"+p.frame, p.val)
